@@ -312,3 +312,37 @@ _add("s3_unescape_of_reverse_of_concat_2free",
      s3_unescape_reverse_concat, tier="quick",
      funcs=["multidecoder.decoders.javascript.find_unescape", "multidecoder.decoders.reverse.find_reverse",
             "multidecoder.decoders.concat.find_concat"])
+
+
+# ---- a layer whose decoder attaches no obfuscation label (as find_powershell_bytes does without a key) ------------
+import regex as _re
+from multidecoder.node import Node as _Node
+from multidecoder.registry import decoder as _decoder
+
+
+@_decoder
+def find_unlabelled_layer(data):
+    """stand-in for a decoder that decodes (value differs from the covered text) but leaves the label empty"""
+    return [_Node("string", m.group(1), "", *m.span()) for m in _re.finditer(rb"<<([^<>]*)>>", data)]
+
+
+def s2_unlabelled_layer_of_reverse(data):
+    # P + <<reverse('ba')>> + S : the unlabelled layer -> reverse('ba') ; reverse -> ab
+    md = Multidecoder(decoders=[find_unlabelled_layer, find_reverse, find_executable_name])
+    root = md.scan(data)
+    e0 = data.index(b"<<")
+    lit = list(data[e0 + 11: e0 + 13])
+    plain1 = list(b"reverse('") + lit + list(b"')")
+    payload = lit[::-1]
+    r = chain_ok(data, root, [("string", "", plain1), ("string", "reverse", payload)], e0, 2 + 13 + 2, payload)
+    if r is not True:
+        return r, True
+    got = root.flatten()
+    want = list(data[:e0]) + [34, 34] + payload + [34, 34] + list(data[e0 + 17:])
+    if not same_bytes(got, want):
+        return hx.fail("flatten of a two-layer stack (unlabelled layer of reverse)", data=data, got=got), True
+    return True, True
+
+
+_add("s2_unlabelled_layer_of_reverse", Tmpl((1, "neutral2"), b"<<reverse('", (2, "plain"), b"')>>", (1, "neutral2")),
+     s2_unlabelled_layer_of_reverse, funcs=["multidecoder.decoders.reverse.find_reverse"])
